@@ -108,9 +108,15 @@ CLAIMED.update({
         note="the f-string scanner is known to be wrong in several independent ways; the check keeps those identified and reports anything new"),
 })
 
-NOT_APPLICABLE = {
-    "C17": "quantifies over all grammars x all token strings; semantic equivalence of emitted code and a PEG interpreter cannot be decided from the shape of the generator source (DESIGN.md §5)",
-}
+CLAIMED.update({
+    "C17": dict(
+        technique="structural rules over the generator's source: handler exhaustiveness (visitor dispatch vs node classes), template extraction of the emitted call text with provenance of its holes, path rules over the emitting methods (must-pass-through / ordering per path), finite-domain evaluation of the nullable and first-graph helpers, path-set rules over the runtime combinators and memo wrappers",
+        category="other",
+        text="Decides NAMED STRUCTURAL CLAUSES only, each a necessary condition of PEG semantics whose breach changes what some grammar's parser accepts or returns: every node class the grammar reader builds has a call-maker handler (T1); each PEG operator's emitted call names that operator's runtime combinator with element/separator in the right order and one-tuple wrapping exactly for the operators that may succeed falsy (T4); every emitted alternative is condition -> action -> reset, with the cut flag and its early exit exactly when the alternative has a cut, the diagnostic gate exactly when it mentions an invalid_ rule, loop helpers collecting and re-marking, ordered choice over all alternatives (T3); nullable analysis and first-graph agree with their definitions on their finite abstract domains, the leader lies on every cycle (T5, T6); the runtime combinators restore positions as PEG prescribes (R-combinators), the memo wrappers run the rule body only on a miss keyed by position, rule and arguments (W2), and the generator facts GF1-GF14. Equivalence of generated parsers with a PEG interpreter over all grammars and token strings is NOT decided; a generator edit outside these clauses is not seen.",
+        note="trusts the operator<->combinator table written in the check, sccutils' SCC algorithm (apart from GF10), and explores the per-item loops of the emitting methods for 0-2 iterations; assumes the property's own well-formedness side conditions on grammars"),
+})
+
+NOT_APPLICABLE = {}
 
 PENDING = {}  # filled while checks are still being built
 
